@@ -575,10 +575,16 @@ structure Native where
   valTokens : List Nat
   valBonded : List Bool := []                     -- status of validator i (missing entry = Bonded); others are Unbonded
   dels : List ((Addr × Nat) × Nat)
-  ubds : List ((Addr × Nat) × List Nat)
-  reds : List ((Addr × Nat × Nat) × List Nat)
+  ubds : List ((Addr × Nat) × List (Nat × Nat))          -- entries: (balance, completion time in ns)
+  reds : List ((Addr × Nat × Nat) × List (Nat × Nat))
   props : List (Nat × Bool)                       -- proposal id ↦ in voting period
   votes : List ((Nat × Addr) × List (Int × Int))
+  now : Nat := 0                                  -- block time (ns since the start of the world)
+  height : Nat := 1
+  unbondingTime : Nat := 0                        -- staking parameter (ns)
+  powerReduction : Nat := 10 ^ 16                 -- tokens per unit of consensus power
+  feeAddr : Addr := []                            -- fee collector
+  distrAddr : Addr := []                          -- distribution module account
 
 def alookup {κ β} [BEq κ] (l : List (κ × β)) (k : κ) : Option β := (l.find? (·.1 == k)).map (·.2)
 def aset {κ β} [BEq κ] (l : List (κ × β)) (k : κ) (v : β) : List (κ × β) :=
@@ -599,6 +605,9 @@ def nmove (n : Native) (src dst : Addr) (x : Nat) : Native :=
 def isBonded (n : Native) (i : Nat) : Bool := n.valBonded.getD i true
 /-- the staking pool holding the tokens of validator `i`. -/
 def poolOf (n : Native) (i : Nat) : Addr := if isBonded n i then n.bondedPool else n.notBondedPool
+
+/-- `SetValidatorByPowerIndex` → `TokensToConsensusPower(tokens).Int64()` panics when the power does not fit an int64. -/
+def powerOverflow (n : Native) (tokens : Nat) : Bool := tokens / n.powerReduction ≥ 2 ^ 63
 
 def addTokens (l : List Nat) (i : Nat) (x : Int) : List Nat := l.set i ((((l.getD i 0 : Nat) : Int) + x).toNat)
 
@@ -623,6 +632,7 @@ def execMsg (cls : Bytes → ValClass) (n : Native) : Msg → Outcome Native
     | .unknown => .err "no validator"
     | .known i =>
       if nbal n del < amt then .err "insufficient funds"
+      else if powerOverflow n (n.valTokens.getD i 0 + amt) then .panic "Int64() out of bound"
       else
         let n1 := nmove n del (poolOf n i) amt
         .ok { n1 with valTokens := addTokens n1.valTokens i amt,
@@ -641,7 +651,7 @@ def execMsg (cls : Bytes → ValClass) (n : Native) : Msg → Outcome Native
         else
           let n1 := unbond n del i amt sh
           let n2 := if isBonded n i then nmove n1 n1.bondedPool n1.notBondedPool amt else n1
-          .ok { n2 with ubds := aset n2.ubds (del, i) (es ++ [amt]) }
+          .ok { n2 with ubds := aset n2.ubds (del, i) (es ++ [(amt, n.now + n.unbondingTime)]) }
   | .redelegate del s t amt =>
     match cls s with
     | .invalid => .err "bech32"
@@ -660,13 +670,14 @@ def execMsg (cls : Bytes → ValClass) (n : Native) : Msg → Outcome Native
           else
             let es := (alookup n.reds (del, i, j)).getD []
             if es.length ≥ maxEntries then .err "too many redelegation entries"
+            else if powerOverflow n (n.valTokens.getD j 0 + amt) then .panic "Int64() out of bound"
             else
               let n1 := unbond n del i amt sh
               let n2 := if poolOf n i == poolOf n j then n1 else nmove n1 (poolOf n i) (poolOf n j) amt
               .ok { n2 with valTokens := addTokens n2.valTokens j amt,
                             dels := aset n2.dels (del, j) ((alookup n2.dels (del, j)).getD 0 + amt),
                             -- an Unbonded source validator completes at once: no redelegation entry
-                            reds := if isBonded n i then aset n2.reds (del, i, j) (es ++ [amt]) else n2.reds }
+                            reds := if isBonded n i then aset n2.reds (del, i, j) (es ++ [(amt, n.now + n.unbondingTime)]) else n2.reds }
   | .withdraw del v =>
     match cls v with
     | .invalid => .err "bech32"
@@ -685,5 +696,34 @@ def execMsg (cls : Bytes → ValClass) (n : Native) : Msg → Outcome Native
     | none => .err "unknown proposal"
     | some false => .err "inactive proposal"
     | some true => .ok { n with votes := aset n.votes (p, voter) os }
+
+/-! #### blocks: `app.BeginBlocker` / `app.EndBlocker` as far as the dumped state is concerned -/
+
+/-- staking `EndBlocker`: mature unbonding entries (completion ≤ block time) are paid out of the not-bonded pool to the
+delegator, mature redelegation entries are dropped. -/
+def matureUbds (n : Native) : List ((Addr × Nat) × List (Nat × Nat)) → Native
+  | [] => { n with ubds := [] }
+  | (k, es) :: rest =>
+    let paid := ((es.filter (fun e => e.2 ≤ n.now)).map (·.1)).foldl (· + ·) 0
+    let left := es.filter (fun e => !(e.2 ≤ n.now))
+    let n1 := if paid = 0 then n else nmove n n.notBondedPool k.1 paid
+    let n2 := matureUbds n1 rest
+    if left.isEmpty then n2 else { n2 with ubds := (k, left) :: n2.ubds }
+
+def endBlock (n : Native) : Native :=
+  let n1 := matureUbds n n.ubds
+  { n1 with reds := (n1.reds.map (fun r => (r.1, r.2.filter (fun e => !(e.2 ≤ n1.now))))).filter (fun r => !r.2.isEmpty) }
+
+/-- distribution `BeginBlocker` without previous votes (`AllocateTokens`): everything the fee collector holds goes to the
+distribution module account (community pool); runs for heights > 1. -/
+def sweepFees (n : Native) : List ((Addr × Denom) × Nat) → Native
+  | [] => n
+  | ((a, d), x) :: rest =>
+    let n1 := if a = n.feeAddr ∧ x > 0 then { n with bank := { n.bank with bal := moveCoin n.bank.bal n.feeAddr n.distrAddr d x } } else n
+    sweepFees n1 rest
+
+def beginBlock (n : Native) (dt : Nat) : Native :=
+  let n1 := { n with now := n.now + dt, height := n.height + 1 }
+  if n1.height > 1 then sweepFees n1 n1.bank.bal else n1
 
 end TM.Adapter
